@@ -879,7 +879,7 @@ def run(ctx):
         if rng.random() < .3:
             vals[rng.randrange(4)] = 0
         envs.append(tuple(zip(('A1', 'B1', 'C1', 'D1'), vals)))
-    nsample = 120000 if thorough else 1500
+    nsample = 250000 if thorough else 1500
     made = 0
     tries = 0
     while made < nsample:
